@@ -117,42 +117,91 @@ def replay_eval(e, ty, vals, ob):
 
 
 def check_log(e, k):
+    """Log<T>::evaluate(v) == T::evaluate(v.ln()), posed structurally: the inner evaluate is stubbed by an uninterpreted
+    result and we prove (i) it is called on the wrapped polynomial itself, (ii) with the argument ln_f64(v), (iii) its
+    result is returned unchanged.  (Comparing two bit-blasted polynomial evaluations at different uninterpreted
+    arguments does not finish; this does, and a model of (ii) is confirmed natively with the property's tolerance.)"""
     label = "Log<Poly%d>" % k
-    funcs = ["<Log<T> as Evaluate>::evaluate", "<Poly%d as Evaluate>::evaluate" % k]
+    funcs = ["<Log<T> as Evaluate>::evaluate", "<Poly%d as Evaluate>::evaluate (stubbed: its own value is decided above)" % k]
     names = ["c%d" % i for i in range(k + 1)]
+    F = z3.Float64()
+    cs = [z3.FP(nm, F) for nm in names]
+    v = z3.FP("v", F)
+    calls = []
     try:
+        from interp import Interp, Struct, Ref, read_path
+        from domains import Num
         dom = FPDomain()
-        r1 = api.run(e, dom, "eval", "LP%d" % k, lambda d: [d.sym(nm) for nm in names] + [d.sym("v")])
-        t_log = r1[0][1][0].t
-        v = z3.FP("v", z3.Float64())
-        r2 = api.run(e, dom, "eval", "P%d" % k, lambda d: [d.sym(nm) for nm in names] + [d.ln(d.sym("v"))])
-        t_poly = r2[0][1][0].t
+        it = Interp(e.program, dom)
+        inner_name = "Poly%d" % k
+
+        def inner_evaluate(f, args):
+            if not f.name.endswith("::evaluate") or len(args) != 2 or not isinstance(args[0], Ref):
+                return False
+            tgt = read_path(args[0].cell, args[0].path)
+            return isinstance(tgt, Struct) and tgt.name == inner_name
+
+        def handler(it_, args):
+            tgt = read_path(args[0].cell, args[0].path)
+            calls.append((api.flat(tgt), args[1]))
+            return Num(dom, z3.FP("inner_result", F))
+        it.stub_preds.append((inner_evaluate, handler))
+        fn, _, _ = api.build_call(e.program, "eval", "LP%d" % k, [dom.sym(nm) for nm in names] + [dom.sym("v")])
+        paths = it.explore(fn, lambda d: api.build_call(e.program, "eval", "LP%d" % k, [d.sym(nm) for nm in names] + [d.sym("v")])[1])
+        e.rep.functions.update(it.functions_run)
     except (Unsupported, PathLimit) as ex:
         e.not_encoded("%s:composition" % label, "Log<T>::evaluate(v) == T::evaluate(ln v)", ex, funcs)
         return
-    cs = [z3.FP(nm, z3.Float64()) for nm in names]
+    if len(paths) != 1 or paths[0].panic is not None or len(calls) != 1:
+        e.not_encoded("%s:composition" % label, "Log<T>::evaluate(v) == T::evaluate(ln v)",
+                      "expected one path with exactly one call of the inner evaluate (paths=%d, calls=%d)" % (len(paths), len(calls)), funcs)
+        return
+    inner_cs, arg = calls[0]
+    res = paths[0].result
 
     def replay(model, ob):
-        vals = [model_value(model, c) for c in cs] + [model_value(model, v)]
-        vals = [0.0 if x is None else float(x) for x in vals]
-        o = e.native.run([("eval", "LP%d" % k, vals), ("ln", "-", [vals[-1]])])
-        lnv = o[1][0]
-        o2 = e.native.run([("eval", "P%d" % k, vals[:-1] + [lnv])])
-        path = e.write_replay(ob.name, {"kind": "E2-native", "requests": [["eval", "LP%d" % k, vals]],
-                                        "statement": "Log<T>::evaluate(v) is bit-identical to T::evaluate(v.ln())"})
-        a, b = o[0][0], o2[0][0]
-        if not validate.same_bits(a, b):
-            return True, path, "Log<Poly%d>(%r).evaluate(%r) = %r but Poly%d.evaluate(ln v = %r) = %r" % (
-                k, vals[:-1], vals[-1], a, k, lnv, b)
-        return False, path, "model does not reproduce natively"
+        """Native confirmation with the property's own tolerance:
+        |result - P(ln v)| <= 4(n+2)u sum|c_i||L|^i + |P'(L)| * ulp(L)   (60-digit reference), at the model's point and at a
+        fixed list of stress points (tiny, near 1, huge v)."""
+        import mpmath
+        mpmath.mp.dps = 60
+        mv = [model_value(model, c) for c in cs]
+        mc = [1.0 if (x is None or x != x or abs(x) > 1e100) else float(x) for x in mv]
+        vm = model_value(model, v)
+        vs = [float(vm)] if (vm is not None and vm == vm and 0 < vm < float("inf")) else []
+        vs += [3.3e-5, 2.0 ** -60, 1e-300, 1e-3, 0.5, 0.9999999, 1.0000001, 2.0, 7.0, 1e6, 1e300]
+        cvecs = [mc, [1.0] * (k + 1), [(-1.0) ** i * (i + 1) for i in range(k + 1)]]
+        path = e.write_replay(ob.name, {"kind": "E2-native-log", "degree": k, "coefficients": cvecs, "points": vs,
+                                        "statement": "|Log<P>::evaluate(v) - P(ln v)| <= 4(n+2)u sum|c_i||ln v|^i + |P'(ln v)| ulp(ln v)"})
+        for cv in cvecs:
+            for vv in vs:
+                for prof in ("dev", "release"):
+                    o = e.native.run([("eval", "LP%d" % k, cv + [vv])], prof)[0]
+                    if isinstance(o, str):
+                        return True, path, "%s build: Log<Poly%d>(%r).evaluate(%r): %s" % (prof, k, cv, vv, o)
+                    L = mpmath.log(mpmath.mpf(vv))
+                    exact = sum(mpmath.mpf(c) * L ** i for i, c in enumerate(cv))
+                    mag = sum(abs(mpmath.mpf(c)) * abs(L) ** i for i, c in enumerate(cv))
+                    dP = sum(i * mpmath.mpf(c) * L ** (i - 1) for i, c in enumerate(cv) if i >= 1)
+                    tol = 4 * (k + 2) * mpmath.mpf(2) ** -53 * mag + abs(dP) * abs(L) * mpmath.mpf(2) ** -52 + mpmath.mpf(10) ** -300
+                    got = o[0]
+                    if got != got or abs(got) == float("inf") or abs(mpmath.mpf(got) - exact) > tol:
+                        return True, path, "%s build: Log<Poly%d>(%r).evaluate(%r) = %r, value of the polynomial at ln v is %s, allowed error %s" % (
+                            prof, k, cv, vv, got, mpmath.nstr(exact, 20), mpmath.nstr(tol, 5))
+        return False, path, "no tested point violates the property's bound natively"
 
-    nonnan = [z3.Not(z3.fpIsNaN(c)) for c in cs] + [z3.fpGT(v, z3.FPVal(0.0, z3.Float64())), z3.Not(z3.fpIsInf(v))]
+    same = lambda a, b: z3.Or(a == b, z3.And(z3.fpIsNaN(a), z3.fpIsNaN(b)))
+    goals = [same(arg.t, dom.ln(Num(dom, v)).t), same(res.t, z3.FP("inner_result", F))]
+    if len(inner_cs) != k + 1:
+        goals.append(z3.BoolVal(False))
+    else:
+        goals += [same(a.t, b) for a, b in zip(inner_cs, cs)]
+    pre = [z3.Not(z3.fpIsNaN(c)) for c in cs] + [z3.fpGT(v, z3.FPVal(0.0, F)), z3.Not(z3.fpIsInf(v))]
     e.prove("%s:composition" % label,
-            "for all non-NaN c and finite v>0 (bit-precise binary64): Log<Poly%d>::evaluate(v) is the same value as "
-            "Poly%d::evaluate(ln_f64(v)) -- ln is one uninterpreted function shared by both sides, so the polynomial's "
-            "bound (above) carries over; accuracy of libm ln itself is outside the claim" % (k, k),
-            nonnan, z3.Or(t_log == t_poly, z3.And(z3.fpIsNaN(t_log), z3.fpIsNaN(t_poly))), dom_name="fp", functions=funcs,
-            witness_terms={"v": v, "c0": cs[0]}, role="log-composition", replay=replay)
+            "bit-precise, all non-NaN c and finite v>0: Log<Poly%d>::evaluate(v) calls Poly%d::evaluate exactly once, on the wrapped "
+            "coefficients, with the argument ln_f64(v) (libm ln as one uninterpreted function), and returns its result unchanged -- so "
+            "the polynomial's bound (above) carries over; accuracy of libm ln itself is outside the claim" % (k, k),
+            pre, z3.And(*goals), dom_name="fp", functions=funcs, witness_terms={"v": v, "c0": cs[0]}, role="log-composition", replay=replay)
 
 
 def run(rep, tier):
